@@ -199,7 +199,9 @@ TLALIB_PURE = os.path.join(TLA, "lib")         # .tla only (pure definitions)
 
 
 def setup_tlalib():
-    """Compile the Java overrides and assemble the accelerated library dir."""
+    """Compile the Java overrides and assemble the accelerated library dir.
+    Files are replaced atomically and only when the source is newer, so TLC
+    processes started by concurrent checks never see a half-written module."""
     with Lock("tlalib"):
         os.makedirs(TLALIB_ACC, exist_ok=True)
         newest = 0
@@ -207,15 +209,24 @@ def setup_tlalib():
             src = os.path.join(TLALIB_PURE, f)
             newest = max(newest, os.path.getmtime(src))
             if f.endswith(".tla"):
-                shutil.copy2(src, os.path.join(TLALIB_ACC, f))
+                dst = os.path.join(TLALIB_ACC, f)
+                if not os.path.exists(dst) or os.path.getmtime(src) > os.path.getmtime(dst):
+                    tmp = dst + ".tmp%d" % os.getpid()
+                    shutil.copy2(src, tmp)
+                    os.replace(tmp, dst)
         stamp = os.path.join(TLALIB_ACC, ".stamp")
         if os.path.exists(stamp) and os.path.getmtime(stamp) >= newest:
             return True
         javas = [os.path.join(TLALIB_PURE, f) for f in os.listdir(TLALIB_PURE) if f.endswith(".java")]
         if javas and shutil.which("javac"):
-            rc, out = sh(["javac", "-nowarn", "-cp", TLAJAR, "-d", TLALIB_ACC] + javas, timeout=120)
+            tmpd = os.path.join(TLALIB_ACC, ".javac%d" % os.getpid())
+            os.makedirs(tmpd, exist_ok=True)
+            rc, out = sh(["javac", "-nowarn", "-cp", TLAJAR, "-d", tmpd] + javas, timeout=120)
             if rc != 0:
                 raise InfraError("javac failed:\n" + out[-3000:])
+            for f in os.listdir(tmpd):
+                os.replace(os.path.join(tmpd, f), os.path.join(TLALIB_ACC, f))
+            shutil.rmtree(tmpd, ignore_errors=True)
         open(stamp, "w").write("ok")
     return True
 
@@ -261,9 +272,13 @@ def tlc(spec, cfg=None, workers=NCPU, timeout=1200, env=None, pure=False, libs=N
         cfg = os.path.join(TLA, cfg)
     lib = [TLALIB_PURE if pure else TLALIB_ACC, os.path.join(TLA, "model"),
            os.path.join(TLA, "trace"), os.path.join(TLA, "gen")] + (libs or [])
-    md = metadir or os.path.join(BUILD, "tlc", "%s-%d-%d" % (os.path.basename(spec)[:-4], os.getpid(),
-                                                           int(time.time() * 1000) % 10**9))
-    os.makedirs(md, exist_ok=True)
+    if metadir:
+        md = metadir
+        os.makedirs(md, exist_ok=True)
+    else:
+        import tempfile
+        os.makedirs(os.path.join(BUILD, "tlc"), exist_ok=True)
+        md = tempfile.mkdtemp(prefix=os.path.basename(spec)[:-4] + "-", dir=os.path.join(BUILD, "tlc"))
     cmd = ["java", "-Xss512m", "-Xmx" + heap, "-XX:+UseParallelGC",
            "-DTLA-Library=" + ":".join(lib), "-cp", TLACP, "tlc2.TLC",
            "-workers", str(workers), "-metadir", md, "-config", cfg]
